@@ -13,11 +13,11 @@ work = os.path.join(V, ".work", "setup"); os.makedirs(work, exist_ok=True)
 for c in m.load_checks()["checks"]:
     seen = set()
     for p in c["parts"]:
-        key = (p["pkg"], bool(p.get("shim")), bool(p.get("race")))
+        key = (p["pkg"], bool(p.get("shim")), bool(p.get("race")), tuple(p.get("seams", ())))
         if key in seen: continue
         seen.add(key)
-        ov = m.build_overlay(work, shim=key[1], prop=c["id"])
-        m.build_test_binary(work, ov, p["pkg"], p.get("tags", "verif"), race=key[2], suffix="_" + c["id"] + ("_shim" if key[1] else "") + ("_race" if key[2] else ""))
+        ov = m.build_overlay(work, shim=key[1], prop=c["id"], seams=key[3])
+        m.build_test_binary(work, ov, p["pkg"], p.get("tags", "verif"), race=key[2], suffix="_" + c["id"] + ("_shim" if key[1] else "") + ("_race" if key[2] else "") + "".join("_" + x for x in key[3]))
 import shutil; shutil.rmtree(work, ignore_errors=True)
 print("setup ok")
 PY
